@@ -27,7 +27,9 @@ pub fn scalar(rng: &mut Rng) -> ScalarValue {
 }
 
 pub fn objtype(rng: &mut Rng) -> ObjType {
-    *rng.pick(&[ObjType::Map, ObjType::List, ObjType::Text, ObjType::Map, ObjType::List, ObjType::Table])
+    // ObjType::Table is not generated: the implementation never registers a table as an object
+    // (ObjType::try_from(Action::MakeTable) fails), see the known finding under C30
+    *rng.pick(&[ObjType::Map, ObjType::List, ObjType::Text, ObjType::Map, ObjType::List])
 }
 
 /// reachable objects (through winners and conflict losers), bounded
@@ -69,15 +71,105 @@ pub struct GenCfg {
     pub text_weight: u64,
     pub counters: bool,
     pub objects: bool,
+    /// conflict-focused profile: few registers, counters and overwrites on the same slots
+    pub focus: bool,
 }
 impl Default for GenCfg {
     fn default() -> Self {
-        GenCfg { text_weight: 2, counters: true, objects: true }
+        GenCfg { text_weight: 2, counters: true, objects: true, focus: false }
+    }
+}
+
+fn small_value(rng: &mut Rng) -> ScalarValue {
+    match rng.below(5) {
+        0 | 1 => ScalarValue::counter(rng.below(9) as i64),
+        2 => ScalarValue::Str(rng.pick(&["x", "text", "\u{e9}"]).to_string().into()),
+        3 => ScalarValue::Int(rng.below(5) as i64),
+        _ => ScalarValue::Null,
+    }
+}
+
+/// edits concentrated on root key "a", a list at "l" (elements 0..2) and a text at "t"
+fn focused_edit(doc: &mut AutoCommit, rng: &mut Rng) -> Option<String> {
+    let list = match doc.get(ROOT, "l") {
+        Ok(Some((Value::Object(ObjType::List), id))) => id,
+        _ => {
+            let id = doc.put_object(ROOT, "l", ObjType::List).ok()?;
+            doc.insert(&id, 0, ScalarValue::Null).ok()?;
+            return Some("focus: make l".into());
+        }
+    };
+    let len = doc.length(&list);
+    let has_counter = |doc: &AutoCommit, vs: Result<Vec<(Value<'_>, ObjId)>, automerge::AutomergeError>| {
+        let _ = doc;
+        vs.map(|vs| vs.iter().any(|(v, _)| matches!(v, Value::Scalar(s) if matches!(s.as_ref(), ScalarValue::Counter(_))))).unwrap_or(false)
+    };
+    match rng.below(12) {
+        0 | 1 | 2 if len > 0 => {
+            let i = rng.below(len.min(2) as u64) as usize;
+            let v = small_value(rng);
+            doc.put(&list, i, v.clone()).ok()?;
+            Some(format!("focus: lput {} {:?}", i, v))
+        }
+        3 | 4 if len > 0 => {
+            let i = rng.below(len.min(2) as u64) as usize;
+            if has_counter(doc, doc.get_all(&list, i)) {
+                doc.increment(&list, i, 5).ok()?;
+                Some(format!("focus: linc {}", i))
+            } else {
+                None
+            }
+        }
+        5 => {
+            let v = small_value(rng);
+            doc.put(ROOT, "a", v.clone()).ok()?;
+            Some(format!("focus: put a {:?}", v))
+        }
+        6 | 7 => {
+            if has_counter(doc, doc.get_all(ROOT, "a")) {
+                doc.increment(ROOT, "a", 3).ok()?;
+                Some("focus: inc a".into())
+            } else {
+                None
+            }
+        }
+        8 if len > 1 => {
+            doc.delete(&list, 0).ok()?;
+            Some("focus: ldel 0".into())
+        }
+        9 => {
+            let i = rng.below(len as u64 + 1) as usize;
+            let v = small_value(rng);
+            doc.insert(&list, i, v.clone()).ok()?;
+            Some(format!("focus: lins {} {:?}", i, v))
+        }
+        10 => {
+            doc.delete(ROOT, "a").ok()?;
+            Some("focus: del a".into())
+        }
+        _ => {
+            let text = match doc.get(ROOT, "t") {
+                Ok(Some((Value::Object(ObjType::Text), id))) => id,
+                _ => {
+                    doc.put_object(ROOT, "t", ObjType::Text).ok()?;
+                    return Some("focus: make t".into());
+                }
+            };
+            let tl = doc.length(&text);
+            let pos = rng.below(tl as u64 + 1) as usize;
+            let del = if tl > pos && rng.chance(1, 2) { 1 } else { 0 };
+            let s: &str = *rng.pick(&["a", "bc", ""]);
+            doc.splice_text(&text, pos, del, s).ok()?;
+            Some(format!("focus: tsplice {} {}", pos, del))
+        }
     }
 }
 
 /// perform one random, valid edit; returns a short description (None if nothing was done)
 pub fn random_edit(doc: &mut AutoCommit, rng: &mut Rng, cfg: &GenCfg) -> Option<String> {
+    if cfg.focus {
+        return focused_edit(doc, rng);
+    }
     let objs = reachable(doc);
     // prefer sequences a little so that lists / texts grow
     let (obj, ty) = {
@@ -100,13 +192,13 @@ pub fn random_edit(doc: &mut AutoCommit, rng: &mut Rng, cfg: &GenCfg) -> Option<
                 }
                 2 if cfg.counters && !existing.is_empty() => {
                     // increment a counter if there is one
+                    // (a counter anywhere in a conflicted register counts)
                     for k in existing {
-                        if let Ok(Some((Value::Scalar(s), _))) = doc.get(&obj, k.as_str()) {
-                            if matches!(s.as_ref(), ScalarValue::Counter(_)) {
-                                let by = rng.below(7) as i64 - 3;
-                                doc.increment(&obj, k.as_str(), by).ok()?;
-                                return Some(format!("inc {} {}", k, by));
-                            }
+                        let has_counter = doc.get_all(&obj, k.as_str()).map(|vs| vs.iter().any(|(v, _)| matches!(v, Value::Scalar(s) if matches!(s.as_ref(), ScalarValue::Counter(_))))).unwrap_or(false);
+                        if has_counter {
+                            let by = rng.below(7) as i64 - 3;
+                            doc.increment(&obj, k.as_str(), by).ok()?;
+                            return Some(format!("inc {} {}", k, by));
                         }
                     }
                     None
@@ -138,18 +230,18 @@ pub fn random_edit(doc: &mut AutoCommit, rng: &mut Rng, cfg: &GenCfg) -> Option<
                     Some(format!("ldel {}", i))
                 }
                 2 | 3 if len > 0 => {
-                    let i = rng.below(len as u64) as usize;
-                    let v = scalar(rng);
+                    // low indexes and counters are favoured so that replicas conflict on one element
+                    let i = if rng.chance(1, 2) { 0 } else { rng.below(len as u64) as usize };
+                    let v = if cfg.counters && rng.chance(1, 3) { ScalarValue::counter(rng.below(9) as i64) } else { scalar(rng) };
                     doc.put(&obj, i, v.clone()).ok()?;
                     Some(format!("lput {} {:?}", i, v))
                 }
                 4 if cfg.counters && len > 0 => {
                     for i in 0..len {
-                        if let Ok(Some((Value::Scalar(s), _))) = doc.get(&obj, i) {
-                            if matches!(s.as_ref(), ScalarValue::Counter(_)) {
-                                doc.increment(&obj, i, 2).ok()?;
-                                return Some(format!("linc {}", i));
-                            }
+                        let has_counter = doc.get_all(&obj, i).map(|vs| vs.iter().any(|(v, _)| matches!(v, Value::Scalar(s) if matches!(s.as_ref(), ScalarValue::Counter(_))))).unwrap_or(false);
+                        if has_counter {
+                            doc.increment(&obj, i, 2).ok()?;
+                            return Some(format!("linc {}", i));
                         }
                     }
                     None
